@@ -1,6 +1,6 @@
 (* C09 — parsing ignores case, separator choice and the order of unordered parts. *)
-From UL Require Import Bytes Subtags LangId Ext Grammar LangIdSpec LocaleSpec AbstractLocale SortProofs SplitProofs LangIdProofs CanonProofs KvProofs FoldProofs LocaleSpecProofs.
-From Coq Require Import Permutation.
+From UL Require Import Bytes Subtags LangId Ext Grammar LangIdSpec LocaleSpec AbstractLocale SortProofs SplitProofs LangIdProofs CanonProofs KvProofs FoldProofs RoundTrip LocaleSpecProofs OrderProofs.
+From Coq Require Import Permutation String.
 
 (* any two byte strings that agree after case folding and '_' -> '-' give the same result: both fail
    (with the same error) or both succeed with the same value - for ALL strings, accepted or not *)
@@ -50,6 +50,83 @@ Theorem C09_same_reading : forall s s' v,
   locale_from_bytes s = locale_from_bytes s'.
 Proof. intros s s' v H H'. rewrite (locale_complete s v H), (locale_complete s' v H'). reflexivity. Qed.
 
+(* ---- the unordered parts, for ALL strings (accepted or not): only the shape of the permuted part is
+   assumed; the prefix `pre` (language identifier and any earlier extensions) and the remainder `R`
+   (later extensions) are arbitrary.  same_outcome = "both fail, or both succeed with equal values". ---- *)
+(* -u- before -t-, or -t- before -u- *)
+Theorem C09_ut_order_all : forall s s' pre su U st T R,
+  split s = pre ++ su :: U ++ st :: T ++ R -> split s' = pre ++ st :: T ++ su :: U ++ R ->
+  pre <> [] -> no_x pre = true ->
+  single_is 117 su = true -> single_is 116 st = true -> no_single U = true -> no_single T = true -> ext_stop R ->
+  same_outcome (locale_from_bytes s) (locale_from_bytes s').
+Proof. exact locale_ut_order. Qed.
+Theorem C09_ut_order_extmap : forall s s' pre su U st T R,
+  split s = pre ++ su :: U ++ st :: T ++ R -> split s' = pre ++ st :: T ++ su :: U ++ R ->
+  no_x pre = true ->
+  single_is 117 su = true -> single_is 116 st = true -> no_single U = true -> no_single T = true -> ext_stop R ->
+  same_outcome (extmap_from_bytes s) (extmap_from_bytes s').
+Proof. exact extmap_ut_order. Qed.
+(* two adjacent -u- keywords with distinct keys, anywhere in the body *)
+Theorem C09_keywords_order_all : forall s s' pre su P k1 V1 k2 V2 rest R,
+  split s = pre ++ su :: (P ++ k1 :: V1 ++ k2 :: V2 ++ rest) ++ R ->
+  split s' = pre ++ su :: (P ++ k2 :: V2 ++ k1 :: V1 ++ rest) ++ R ->
+  pre <> [] -> no_x pre = true -> single_is 117 su = true -> no_single P = true -> no_single rest = true -> ext_stop R ->
+  ukey_tok k1 = true -> ukey_tok k2 = true -> lower k1 <> lower k2 ->
+  forallb utype_tok V1 = true -> forallb utype_tok V2 = true -> head_not utype_tok rest ->
+  locale_from_bytes s = locale_from_bytes s'.
+Proof. exact locale_ukeywords_order. Qed.
+(* two adjacent -t- fields with distinct keys *)
+Theorem C09_tfields_order_all : forall s s' pre st P k1 V1 k2 V2 rest R,
+  split s = pre ++ st :: (P ++ k1 :: V1 ++ k2 :: V2 ++ rest) ++ R ->
+  split s' = pre ++ st :: (P ++ k2 :: V2 ++ k1 :: V1 ++ rest) ++ R ->
+  pre <> [] -> no_x pre = true -> single_is 116 st = true -> no_single P = true -> no_single rest = true -> ext_stop R ->
+  tkey_tok k1 = true -> tkey_tok k2 = true -> lower k1 <> lower k2 ->
+  forallb tvalue_tok V1 = true -> forallb tvalue_tok V2 = true -> head_not tvalue_tok rest ->
+  locale_from_bytes s = locale_from_bytes s'.
+Proof. exact locale_tfields_order. Qed.
+(* -u- attributes: any reordering / repetition with the same case-folded set *)
+Theorem C09_attributes_all : forall s s' pre su A A' rest R,
+  split s = pre ++ su :: (A ++ rest) ++ R -> split s' = pre ++ su :: (A' ++ rest) ++ R ->
+  pre <> [] -> no_x pre = true -> single_is 117 su = true -> no_single rest = true -> ext_stop R ->
+  forallb attr_tok A = true -> forallb attr_tok A' = true ->
+  (forall y, In y (map lower A) <-> In y (map lower A')) ->
+  locale_from_bytes s = locale_from_bytes s'.
+Proof. exact locale_uattrs_order. Qed.
+(* variants: any reordering / repetition with the same case-folded set, Locale and LanguageIdentifier *)
+Theorem C09_variants_all_locale : forall s s' l sc rg V V' R,
+  split s = (l :: opt_tok sc ++ opt_tok rg ++ V) ++ R -> split s' = (l :: opt_tok sc ++ opt_tok rg ++ V') ++ R ->
+  lang_tok l = true -> opt_holds script_tok sc -> opt_holds region_tok rg ->
+  forallb variant_tok V = true -> forallb variant_tok V' = true ->
+  (forall y, In y (map lower V) <-> In y (map lower V')) -> li_stop R ->
+  locale_from_bytes s = locale_from_bytes s'.
+Proof. exact locale_variants_order. Qed.
+Theorem C09_variants_all_langid : forall s s' l sc rg V V',
+  split s = l :: opt_tok sc ++ opt_tok rg ++ V -> split s' = l :: opt_tok sc ++ opt_tok rg ++ V' ->
+  lang_tok l = true -> opt_holds script_tok sc -> opt_holds region_tok rg ->
+  forallb variant_tok V = true -> forallb variant_tok V' = true ->
+  (forall y, In y (map lower V) <-> In y (map lower V')) ->
+  langid_from_bytes s = langid_from_bytes s'.
+Proof. exact langid_variants_order. Qed.
+
+(* non-vacuity: the hypotheses are met by ordinary identifiers, and the conclusion is then about Ok values *)
+Example C09_order_witness :
+  let s  := bs "en-US-u-attr-ca-buddhist-nu-latn-t-de-h0-hybrid-m0-ungegn-x-foo"%string in
+  let s' := bs "en-US-t-de-m0-ungegn-h0-hybrid-u-attr-nu-latn-ca-buddhist-x-foo"%string in
+  (exists v, locale_from_bytes s = Ok v /\ locale_from_bytes s' = Ok v)
+  /\ split s = [bs "en"; bs "US"] ++ bs "u" :: [bs "attr"; bs "ca"; bs "buddhist"; bs "nu"; bs "latn"]
+                ++ bs "t" :: [bs "de"; bs "h0"; bs "hybrid"; bs "m0"; bs "ungegn"] ++ [bs "x"; bs "foo"]
+  /\ no_x [bs "en"; bs "US"] = true /\ single_is 117 (bs "u") = true /\ single_is 116 (bs "t") = true
+  /\ no_single [bs "attr"; bs "ca"; bs "buddhist"; bs "nu"; bs "latn"] = true
+  /\ ukey_tok (bs "ca") = true /\ forallb utype_tok [bs "buddhist"] = true /\ tkey_tok (bs "h0") = true.
+Proof. vm_compute. repeat split; eauto. Qed.
+
+Print Assumptions C09_ut_order_all.
+Print Assumptions C09_ut_order_extmap.
+Print Assumptions C09_keywords_order_all.
+Print Assumptions C09_tfields_order_all.
+Print Assumptions C09_attributes_all.
+Print Assumptions C09_variants_all_locale.
+Print Assumptions C09_variants_all_langid.
 Print Assumptions C09_fold_locale.
 Print Assumptions C09_fold_extmap.
 Print Assumptions C09_attributes.
